@@ -41,6 +41,10 @@ CLAIMED = {
             "z3 decides per path that TP/FP/switch counts, score sums and the MOTA/MOTP formulas equal the definitions; an "
             "accumulator obligation shows CLEAR over F frames is the sum of pair values, so the pair step covers every history "
             "length for per-frame sizes within the bound; renaming invariance is a relational query."),
+    "C10": ("4 C10", "filter_objects / filter_object_results are executed on objects with symbolic ego-relative position, confidence "
+            "and point count (ego frame, or map frame with an exact-rotation ego pose and symbolic translation) under symbolic "
+            "per-label bounds of every kind; z3 decides kept <=> specification predicate, idempotence, order preservation "
+            "and monotonicity under widening on every path."),
 }
 NA = {
     "C16": "dataset loading goes through the nuScenes devkit and file I/O; a symbolic stand-in for the devkit would be the "
